@@ -130,6 +130,8 @@ def inject(p, cls, r):
         kind = r.choice(["agg", "cum", "func"])
         rq = {"agg": {"type": "agg", "sources": ["nosuchoutput"]}, "cum": {"type": "cum", "source": "nosuchoutput", "start": None},
               "func": {"type": "func", "fn": 0, "sources": ["nosuchoutput", "nosuchoutput"], "params": ["1/2"]}}[kind]
+        if kind in ("agg", "cum") and r.random() < 0.5:
+            rq["objs"] = True        # the missing source handed over as a DerivedOutput object (a mistyped name, a stale handle)
         ops.append({"op": "req", "name": "badreq", "save": True, "req": rq})
         return q, len(ops)
     if cls == "adjustment_omits_stratum" and sidx and names:
